@@ -183,6 +183,110 @@ func init() {
 		}
 		emitBool("checkconn_deadline_before_noop", ccArm, "client.go checkConn: UpdateDeadline precedes Noop")
 
+		// every deadline call of both packages: exactly the two setting sites (the dial, smtp.Client.UpdateDeadline), each
+		// with "now + the configured timeout"; the three UpdateDeadline callers pass c.connTimeout
+		sites, argsOK := 0, true
+		argOf := func(pp *pkg, ce *ast.CallExpr) string {
+			if len(ce.Args) != 1 {
+				return ""
+			}
+			return pp.src(ce.Args[0])
+		}
+		for _, pp := range []*pkg{p, sp} {
+			for name, fn := range pp.funcs {
+				if fn.Body == nil {
+					continue
+				}
+				ast.Inspect(fn.Body, func(x ast.Node) bool {
+					ce, ok := x.(*ast.CallExpr)
+					if !ok {
+						return true
+					}
+					fun := pp.src(ce.Fun)
+					switch {
+					case strings.HasSuffix(fun, ".SetDeadline") || strings.HasSuffix(fun, ".SetReadDeadline") || strings.HasSuffix(fun, ".SetWriteDeadline"):
+						sites++
+						want := map[string]string{"Client.DialToSMTPClientWithContext": "time.Now().Add(c.connTimeout)", "Client.UpdateDeadline": "time.Now().Add(timeout)"}[name]
+						if want == "" || argOf(pp, ce) != want || !strings.HasSuffix(fun, ".SetDeadline") {
+							argsOK = false
+						}
+					case strings.HasSuffix(fun, ".UpdateDeadline"):
+						if argOf(pp, ce) != "c.connTimeout" {
+							argsOK = false
+						}
+					}
+					return true
+				})
+			}
+		}
+		emit("(* client.go + smtp/smtp.go: number of Set(Read|Write)Deadline call sites *)\nDefinition deadline_call_sites : N := %d.\n", sites)
+		emitBool("deadline_args_are_timeout", argsOK, "every SetDeadline is time.Now().Add(<the configured timeout>) in DialToSMTPClientWithContext / smtp.Client.UpdateDeadline; every UpdateDeadline call passes c.connTimeout")
+
+		// the configuration path: ports, and "every policy / ssl setter assigns its field unconditionally"
+		p.constN("default_port", "DefaultPort")
+		p.constN("default_port_ssl", "DefaultPortSSL")
+		p.constN("default_port_tls", "DefaultPortTLS")
+		// lastAssign: the body has no return statement and its last top-level statement is "<lhs> = <rhs>"
+		lastAssign := func(body *ast.BlockStmt, lhs, rhs string) bool {
+			if body == nil || len(body.List) == 0 {
+				return false
+			}
+			hasReturn := false
+			ast.Inspect(body, func(x ast.Node) bool {
+				if _, ok := x.(*ast.ReturnStmt); ok {
+					hasReturn = true
+				}
+				return true
+			})
+			as, ok := body.List[len(body.List)-1].(*ast.AssignStmt)
+			return ok && !hasReturn && len(as.Lhs) == 1 && len(as.Rhs) == 1 && as.Tok == token.ASSIGN && p.src(as.Lhs[0]) == lhs && p.src(as.Rhs[0]) == rhs
+		}
+		// optBody: the body of the closure "func(c *Client) error {...}" an Option constructor returns
+		optBody := func(name string) *ast.BlockStmt {
+			fn, ok := p.funcs[name]
+			if !ok || fn.Body == nil {
+				return nil
+			}
+			var res *ast.BlockStmt
+			ast.Inspect(fn.Body, func(x ast.Node) bool {
+				if fl, ok := x.(*ast.FuncLit); ok && res == nil {
+					res = fl.Body
+				}
+				return true
+			})
+			return res
+		}
+		// optDoes: the closure is "<stmt>; return nil" with <stmt> the given source text
+		optDoes := func(name, stmt string) bool {
+			b := optBody(name)
+			if b == nil || len(b.List) != 2 {
+				return false
+			}
+			rs, ok := b.List[1].(*ast.ReturnStmt)
+			return ok && len(rs.Results) == 1 && p.src(rs.Results[0]) == "nil" && p.src(b.List[0]) == stmt
+		}
+		body := func(name string) *ast.BlockStmt {
+			if fn, ok := p.funcs[name]; ok {
+				return fn.Body
+			}
+			return nil
+		}
+		portGuard := func(name string) bool { // the port / fallback side effects sit under "if c.port == DefaultPort"
+			b := body(name)
+			if b == nil || len(b.List) != 2 {
+				return false
+			}
+			is, ok := b.List[0].(*ast.IfStmt)
+			return ok && is.Init == nil && is.Else == nil && p.src(is.Cond) == "c.port == DefaultPort"
+		}
+		setters := lastAssign(body("Client.SetTLSPolicy"), "c.tlspolicy", "policy") && len(body("Client.SetTLSPolicy").List) == 1 &&
+			lastAssign(body("Client.SetTLSPortPolicy"), "c.tlspolicy", "policy") && portGuard("Client.SetTLSPortPolicy") &&
+			lastAssign(body("Client.SetSSL"), "c.useSSL", "ssl") && len(body("Client.SetSSL").List) == 1 &&
+			lastAssign(body("Client.SetSSLPort"), "c.useSSL", "ssl") && portGuard("Client.SetSSLPort") &&
+			optDoes("WithTLSPolicy", "c.tlspolicy = policy") && optDoes("WithTLSPortPolicy", "c.SetTLSPortPolicy(policy)") &&
+			optDoes("WithSSL", "c.useSSL = true") && optDoes("WithSSLPort", "c.SetSSLPort(true, fallback)")
+		emitBool("cfg_setters_unconditional", setters, "client.go: (With|Set)TLSPolicy, (With|Set)TLSPortPolicy, WithSSL/SetSSL, (With|Set)SSLPort assign tlspolicy / useSSL as their last statement, without a return before it; port side effects only under c.port == DefaultPort")
+
 		// sendSingleMsg: a failed RSET after a failed MAIL / RCPT / DATA closes the connection; a rejected DATA is
 		// followed by RSET (repairs of C03/C04 that change the send dialogue the dial-and-send model runs through)
 		sendAbort := false
